@@ -101,6 +101,8 @@ class Scan:
             if s.get("k") in ("for", "while", "do") and s.get("c") is not None:
                 for op, l, r in atoms_of_cond(s["c"], True):
                     for a, b in ((l, r), (r, l)):
+                        if (id(a), id(b)) in _ordered_reversed(s["c"]):
+                            continue        # `j < i`: j is the cursor and i its end, never the other way round
                         a0 = astx.strip_casts(a)
                         inc = False
                         if a0 is not None and a0.get("k") == "un" and a0["op"] == "++":
@@ -109,6 +111,25 @@ class Scan:
                         n = ref_name(a0) if a0 is not None else None
                         if n and ref_name(b):
                             self.leading.add((n, ref_name(b)))
+
+
+def _ordered_reversed(c):
+    """(id(end), id(cursor)) of every strict ordering inside a condition: the greater side of `a < b` is the end"""
+    out = set()
+    for x in astx.walk_expr(c) if hasattr(astx, "walk_expr") else _walk(c):
+        if isinstance(x, dict) and x.get("k") == "bin" and x["op"] in ("<", ">"):
+            hi, lo = (x["r"], x["l"]) if x["op"] == "<" else (x["l"], x["r"])
+            out.add((id(hi), id(lo)))
+    return out
+
+
+def _walk(e):
+    if e is None or not isinstance(e, dict):
+        return
+    yield e
+    for c in astx.children(e):
+        for y in _walk(c):
+            yield y
 
 
 def _end_name(b):
@@ -122,7 +143,7 @@ def _end_name(b):
 def check_scan(chk, f, rule="IT1"):
     sc = Scan(f)
     construct = astx.sig(f)
-    leaders = dict(sc.leading)
+    leaders = dict(sorted(sc.leading))
     for b, e in sc.pairs.items():
         leaders.setdefault(b, e)
     if not leaders:
@@ -2385,4 +2406,103 @@ def index_loop_area(chk, db, prefixes, rule="IDXLOOP"):
             if not ok:
                 chk.violation(rule, label, "index-reaches-size", "%s: the loop runs while `%s <= size()` and reads the element at `%s`: the element one "
                               "past the last is read" % (astx.loc(f, lp), name, name), {"where": astx.loc(f)})
+    return n
+
+
+# ---- RSTEP: a cursor that is stepped downwards inside a loop bounded by `cursor != low` is compared before every step -------
+def _cmp_other(c, name):
+    """texts of the expressions `name` is compared with inside condition c"""
+    out = []
+    for x in astx.walk_expr(c):
+        if x.get("k") == "bin" and x["op"] in ("!=", "==", "<", ">", "<=", ">="):
+            for a, b in ((x["l"], x["r"]), (x["r"], x["l"])):
+                if ref_name(a) == name:
+                    out.append(astx.show(astx.strip_casts(b), 80))
+    return out
+
+
+def check_rstep(chk, f, rule="RSTEP"):
+    """For every loop whose condition compares a local cursor/index `p` with a lower bound b and that steps p down by one
+    (`--p` / `p--` in the body or the increment): on every structural path each such step is preceded, since p's previous
+    step, by a fact that excludes p == b (`p != b` true, `p == b` false, `p > b` true, `b < p` true). A do-while that steps
+    first and compares afterwards walks below b when it is entered with p == b.
+    returns None (no subject) | list of (cursor, bound text, node) violations"""
+    if f.get("body") is None:
+        return None
+    subjects = {}        # id(dec node) -> (name, bound texts)
+    for lp in [st for st in astx.walk_stmts(f["body"]) if st.get("k") in ("for", "while", "do") and st.get("c") is not None]:
+        in_cond = set(id(x) for x in astx.walk_expr(lp["c"]))
+        decs = []
+        for x in list(astx.walk_stmt_exprs(lp.get("body"))) + (list(astx.walk_expr(lp["inc"])) if lp.get("inc") is not None else []):
+            if x.get("k") == "un" and x["op"] == "--" and ref_name(x["e"]):
+                decs.append(x)
+        for x in decs:
+            if id(x) in in_cond:
+                continue
+            n = ref_name(x["e"])
+            others = _cmp_other(lp["c"], n)
+            if not others:
+                continue
+            # the cursor must not also be stepped upwards or moved by arithmetic inside the loop (not a plain downward scan)
+            moved = False
+            for y in list(astx.walk_stmt_exprs(lp.get("body"))) + (list(astx.walk_expr(lp["inc"])) if lp.get("inc") is not None else []):
+                if y.get("k") == "un" and y["op"] == "++" and ref_name(y["e"]) == n:
+                    moved = True
+                if y.get("k") == "bin" and y["op"] in ("=", "+=", "-=") and ref_name(y["l"]) == n:
+                    moved = True
+            if moved:
+                continue
+            subjects[id(x)] = (n, set(others))
+    if not subjects:
+        return None
+    bad = []
+    for p in SP.paths(f["body"]):
+        excl = {}       # name -> set of bound texts currently excluded
+        def effects(e):
+            for x in astx.walk_expr(e):
+                if x.get("k") == "un" and x["op"] in ("--", "++") and ref_name(x["e"]):
+                    n = ref_name(x["e"])
+                    if id(x) in subjects:
+                        nm, bounds = subjects[id(x)]
+                        if not (excl.get(nm, set()) & bounds) and not any(b[2] is x for b in bad):
+                            bad.append((nm, sorted(bounds)[0], x))
+                    excl.pop(n, None)
+                if x.get("k") == "bin" and x["op"] in ("=", "+=", "-=") and ref_name(x["l"]):
+                    excl.pop(ref_name(x["l"]), None)
+        for ev in p:
+            if ev[0] in ("cond", "backedge-cond"):
+                effects(ev[1])
+                if ev[0] == "cond":
+                    from .arith import atoms as _atoms, FLIP as _FLIP
+                    for op, l, r in _atoms(ev[1], ev[2]):
+                        for a, b, o in ((l, r, op), (r, l, _FLIP[op])):
+                            n = ref_name(a)
+                            if n and o in ("!=", ">"):
+                                excl.setdefault(n, set()).add(astx.show(astx.strip_casts(b), 80))
+            elif ev[0] == "decl":
+                if ev[1].get("init") is not None:
+                    effects(ev[1]["init"])
+                excl.pop(ev[1].get("n"), None)
+            elif ev[0] in ("expr", "ret") and ev[1] is not None:
+                effects(ev[1])
+    return bad
+
+
+def rstep_area(chk, db, prefixes, rule="RSTEP"):
+    n = 0
+    for f in db.funcs:
+        if f.get("body") is None or not any(f["file"].startswith(p) for p in prefixes):
+            continue
+        r = check_rstep(chk, f, rule)
+        if r is None:
+            continue
+        n += 1
+        construct = astx.sig(f)
+        chk.instance(rule)
+        chk.obligation(rule, construct, not r)
+        for nm, bound, node in r[:2]:
+            chk.violation(rule, construct, "steps-below-bound",
+                          "%s: `%s` is executed on a path on which `%s` has not been compared with `%s` since its previous step: "
+                          "when the loop is entered with %s == %s the cursor leaves the range downwards"
+                          % (astx.loc(f, node), astx.show(node, 30), nm, bound, nm, bound), {"where": astx.loc(f)})
     return n
